@@ -274,7 +274,7 @@ Section RoundTrip.
   Lemma esc_pattern_app a b : esc_pattern (a ++ b) = esc_pattern a ++ esc_pattern b.
   Proof.
     induction a as [|c a IH]; [reflexivity|]. cbn [app esc_pattern]. rewrite IH.
-    destruct (memb c [63; 42; 91; 92]); reflexivity.
+    destruct (memb c _); reflexivity.
   Qed.
 
   Lemma fpattern_quoted f : all_quoted f = true -> fpattern f = esc_pattern (funquote f).
